@@ -780,6 +780,9 @@ class NestedCase(object):
                 if c.isValue:
                     raise Mismatch('clone-without-values-is-a-value', repr(c)[:100])
                 return ('clone-schema',)
+            if rng.random() < 0.3:
+                partial_clone_probe(rng, self.kind if hasattr(self, 'kind') else 'seq')
+                return ('clone-deep-of-partly-filled-record',)
             if rng.random() < 0.6 and present:
                 # a deep clone shares nothing with the original: mutate the clone's nested members
                 for nm in present:
@@ -935,6 +938,117 @@ class DynCase(object):
             expect_reject(lambda: self.obj['nope'], (KeyError,))
             return ('bad-name',)
         return ('noop',)
+
+
+# ------------------------------------------------------------------ deep clones of partly filled records
+
+def _inner_schema():
+    return univ.Sequence(componentType=namedtype.NamedTypes(
+        namedtype.NamedType('a', univ.Integer()), namedtype.NamedType('b', univ.Integer()),
+        namedtype.OptionalNamedType('c', univ.OctetString())))
+
+
+def _outer_schema(kind):
+    cls = univ.Sequence if kind != 'set' else univ.Set
+    ctx = lambda n, t: t.subtype(implicitTag=tag.Tag(tag.tagClassContext, tag.tagFormatSimple, n))
+    return cls(componentType=namedtype.NamedTypes(
+        namedtype.NamedType('id', univ.Integer()),
+        namedtype.NamedType('inner', ctx(0, _inner_schema())),
+        namedtype.NamedType('lst', ctx(1, univ.SequenceOf(componentType=_inner_schema()))),
+        namedtype.OptionalNamedType('ch', univ.Choice(componentType=namedtype.NamedTypes(
+            namedtype.NamedType('r', ctx(2, _inner_schema())), namedtype.NamedType('n', univ.Null()))))))
+
+
+def _snap(obj):
+    """What a partly filled object holds; members never stored (and read placeholders holding nothing) do not show."""
+    if isinstance(obj, univ.Choice):
+        try:
+            name = obj.getName()
+        except error.PyAsn1Error:
+            return None
+        inner = _snap(obj.getComponent())
+        return (name, inner)
+    if isinstance(obj, univ.SequenceOfAndSetOfBase):
+        if not obj.isValue:
+            return None
+        return [_snap(obj.getComponentByPosition(i)) for i in range(len(obj))]
+    if isinstance(obj, univ.SequenceAndSetBase):
+        out = {}
+        for i, nt in enumerate(obj.componentType.namedTypes):
+            # (the non-instantiating accessor hides members that are not values yet; an instantiating read returns
+            # what is stored and leaves an empty placeholder where nothing was - which the snapshot prunes)
+            c = obj.getComponentByPosition(i)
+            if c is univ.noValue:
+                continue
+            v = _snap(c)
+            if v is None or v == {}:
+                continue
+            out[nt.name] = v
+        return out
+    if obj is None or obj is univ.noValue or not obj.isValue:
+        return None
+    if isinstance(obj, univ.OctetString):
+        return bytes(obj)
+    if isinstance(obj, univ.Null):
+        return ''
+    return int(obj)
+
+
+def _fill_inner(rng, rec):
+    for nm in ('a', 'b', 'c'):
+        if rng.random() < 0.5:
+            rec[nm] = rng.randint(0, 99) if nm != 'c' else bytes([rng.randint(0, 255)])
+
+
+def partial_clone_probe(rng, kind):
+    """clone(cloneValueFlag=True) of a record at any moment of its construction: members that are themselves
+    records, lists of records or a CHOICE holding a record and that are only partly filled (mandatory fields still
+    missing, so they are not values yet) keep what they hold, and the copy is independent in both directions."""
+    import copy
+    o = _outer_schema(kind)
+    if rng.random() < 0.7:
+        o['id'] = rng.randint(0, 9)
+    if rng.random() < 0.8:
+        _fill_inner(rng, o['inner'])
+    if rng.random() < 0.6:
+        o['lst'].clear()
+        for _ in range(rng.randint(0, 3)):
+            m = _inner_schema()
+            _fill_inner(rng, m)
+            # (a member that holds nothing cannot be appended: keep at least one field)
+            if _snap(m) == {}:
+                m['a'] = 1
+            o['lst'].append(m)
+    r = rng.random()
+    if r < 0.3:
+        _fill_inner(rng, o['ch']['r'])
+        if _snap(o['ch']['r']) == {}:
+            o['ch']['r']['b'] = 2
+    elif r < 0.45:
+        o['ch']['n'] = ''
+    want = copy.deepcopy(_snap(o))
+    c = o.clone(cloneValueFlag=True)
+    if _snap(c) != want:
+        raise Mismatch('deep-clone-of-partly-filled-record-differs', 'clone %r original %r' % (_snap(c), want))
+    if _snap(o) != want:
+        raise Mismatch('deep-clone-changed-the-original', '%r vs %r' % (_snap(o), want))
+    def mutate(x):
+        x['inner']['b'] = 4242
+        x['lst'].append(_inner_schema().clone())
+        x['lst'][len(x['lst']) - 1]['a'] = 4242
+        if want.get('lst'):
+            x['lst'][0]['c'] = b'mutated'
+        if want.get('ch', ('n',))[0] == 'r':
+            x['ch']['r']['a'] = 4242
+    mutate(c)
+    if _snap(o) != want:
+        raise Mismatch('deep-clone-of-partly-filled-record-shares-state', 'original %r vs %r' % (_snap(o), want))
+    c2 = o.clone(cloneValueFlag=True)
+    if _snap(c2) != want:
+        raise Mismatch('deep-clone-of-partly-filled-record-differs', 'second clone %r vs %r' % (_snap(c2), want))
+    mutate(o)
+    if _snap(c2) != want:
+        raise Mismatch('deep-clone-of-partly-filled-record-shares-state', 'clone %r vs %r' % (_snap(c2), want))
 
 
 # ------------------------------------------------------------------ CHOICE
